@@ -20,6 +20,8 @@ structure Oracle where
   compile : Std.HashMap String (Option Nat) := {}
   find    : Std.HashMap String (Option (List Bytes)) := {}
   search  : Std.HashMap String Bool := {}
+  /-- `strconv.ParseFloat(s, 64)` value component as IEEE-754 bits (C18), filled from `E PF s bits` -/
+  float   : Std.HashMap String UInt64 := {}
 
 def Oracle.add (o : Oracle) (fs : List String) : Oracle :=
   match fs with
@@ -27,6 +29,7 @@ def Oracle.add (o : Oracle) (fs : List String) : Oracle :=
   | ["E", "F", p, s, r] =>
     let v : Option (List Bytes) := if r == "nomatch" then none else some ((r.splitOn ",").map hexOf)
     { o with find := o.find.insert (p ++ " " ++ s) v }
+  | ["E", "PF", s, r] => { o with float := o.float.insert s (natOf r).toUInt64 }
   | ["E", "S", p, s, r] => { o with search := o.search.insert (p ++ " " ++ s) (r == "1") }
   | _ => o
 
